@@ -14,6 +14,7 @@ LOADS = ['lw', 'lb', 'lh', 'lbu', 'lhu']
 STORES = ['sw', 'sb', 'sh']
 ALU_R = ['add', 'sub', 'and', 'or', 'xor', 'sll', 'srl', 'sra', 'slt', 'sltu', 'mul', 'mulh', 'div', 'remu']
 SHIFTS = ['slli', 'srli', 'srai']
+AMO = ['lr.w', 'sc.w', 'amoswap.w', 'amoadd.w', 'amoxor.w', 'amoand.w', 'amoor.w', 'amomin.w', 'amomax.w', 'amominu.w', 'amomaxu.w']
 BRANCHES = ['beq', 'bne', 'blt', 'bge', 'bltu', 'bgeu']
 PBRANCH1 = ['beqz', 'bnez', 'blez', 'bgez', 'bltz', 'bgtz']
 PBRANCH2 = ['bgt', 'ble', 'bgtu', 'bleu']
@@ -75,8 +76,14 @@ def plain_inst(rng, compress_bias=0.5):
         return {'k': 'inst', 'm': rng.choice(LOADS), 'ops': [R(rng), R(rng), {'i': rng.choice(IMM12)}]}
     if c < 0.5:
         return {'k': 'inst', 'm': rng.choice(STORES), 'ops': [R(rng), R(rng), {'i': rng.choice(IMM12)}]}
-    if c < 0.7:
+    if c < 0.66:
         return {'k': 'inst', 'm': rng.choice(ALU_R), 'ops': [R(rng), R(rng), R(rng)]}
+    if c < 0.69:
+        # atomics: three (lr.w: two) registers, no immediate
+        m = rng.choice(AMO)
+        return {'k': 'inst', 'm': m, 'ops': [R(rng), R(rng)] + ([] if m == 'lr.w' else [R(rng)])}
+    if c < 0.7:
+        return {'k': 'inst', 'm': rng.choice(['csrrwi', 'csrrsi', 'csrrci']), 'ops': [R(rng), {'i': rng.randrange(32)}, {'i': rng.choice([0, 0x300, 0x341, 0x7ff, 0xc00, 0xf14])}]}
     if c < 0.78:
         return {'k': 'inst', 'm': rng.choice(SHIFTS), 'ops': [R(rng), R(rng), {'i': rng.randrange(32)}]}
     if c < 0.86:
